@@ -23,24 +23,35 @@ from decimal import Decimal
 PROPERTY = "C19"
 LEAN_MODULES = ["Proofs.C19"]
 DRIVERS = ["driver_metrics"]
-RULE = ("1-4 scripted strategies out of 11 behaviours (idle, add liquidity once/twice, add then remove, buy, sell, rebalance, add on the second "
-        "Uniswap market, failing operation, Aave supply, Aave supply+borrow) over the market mixes {uni}, {uni, uni}, {uni, aave}, threads in "
-        "{1,2,4}, identity/reversed orders and all 6 orders of one triple (all orders in the thorough tier), 12-40 bars, plus 6 manager-level "
+RULE = ("1-4 scripted strategies out of 14 behaviours (idle, add liquidity once/twice, add then remove, buy, sell, rebalance, add on the second "
+        "Uniswap market, failing operation, Aave supply, Aave supply+borrow, add an indicator column and trade on it, act on such a column if "
+        "present, overwrite the data frame in place) over the market mixes {uni}, {uni, uni}, {uni, aave}, threads in "
+        "{1,2,4} (fork; some pooled cases through the Windows branch), identity/reversed orders and all 6 orders of one triple (all orders in the thorough tier), 12-40 bars, plus 6 manager-level "
         "edge scenarios; bucket = (path sequential/pooled, threads, number of strategies, market count, multiset of behaviours, order kind)")
 TRUSTED = [
     "process scheduling, fork and pickling are runtime behaviour of CPython/the OS: that part is measured (every pooled case is executed), the "
     "theorems cover the manager's data flow for every assignment of tasks to workers",
-    "a strategy is modelled as an arbitrary transformer of the market objects it is attached to; the theorems assume a run leaves the input "
-    "data frames intact (that is C02; the harness checks the frames' hash after every sequential run)",
+    "a strategy (with its Actuator) is modelled as an arbitrary transformer of the market objects and data frames it is handed; copy.deepcopy "
+    "and DataFrame.copy(deep=False) under pandas copy-on-write (pandas >= 3, the installed version) are assumed to give independent objects — "
+    "the harness checks after every run that the manager's own frames and configured markets are untouched",
+    "module-level / class-level state of demeter (logging, decimal context, caches) is outside the model; it is exercised only through the "
+    "generated behaviours",
 ]
-ASSUMPTIONS = ["Actuator.run does not modify the BacktestData it is given (checked per run)", "start method fork (Linux)"]
+ASSUMPTIONS = ["pandas copy-on-write is on (pandas >= 3); for pandas 2 the partial theorem needs strategies that do not overwrite frame values in place",
+               "start method fork (Linux); the Windows branch is executed by patching the module's platform name inside the harness's worker process"]
 
 HERE = os.path.dirname(os.path.abspath(__file__))
-BEHAVIOURS = ["idle", "add1", "add2", "addremove", "buy", "sell", "rebalance", "add_b", "failing", "aave_s", "aave_sb", "indicator", "follower"]
+try:
+    import pandas as _pd
+    COW = int(_pd.__version__.split(".")[0]) >= 3      # copy-on-write is always on from pandas 3
+except Exception:  # noqa: BLE001
+    COW = True
+BEHAVIOURS = ["idle", "add1", "add2", "addremove", "buy", "sell", "rebalance", "add_b", "failing", "aave_s", "aave_sb", "indicator", "follower", "vandal"]
 # effect of a behaviour on the number of open positions on the first market and on the second market (Uniswap positions, or Aave
-# supplies when the second market is Aave): the projection the manager model is run on
-POS_EFFECT = {"idle": (0, 0), "add1": (1, 0), "add2": (2, 0), "addremove": (0, 0), "buy": (0, 0), "sell": (0, 0), "rebalance": (0, 0),
-              "add_b": (0, 1), "failing": (0, 0), "aave_s": (0, 1), "aave_sb": (0, 1), "indicator": (0, 0), "follower": (0, 0)}
+# supplies when the second market is Aave) and on the number of indicator columns in its data frame: the projection the manager model is run on
+POS_EFFECT = {"idle": (0, 0, 0), "add1": (1, 0, 0), "add2": (2, 0, 0), "addremove": (0, 0, 0), "buy": (0, 0, 0), "sell": (0, 0, 0),
+              "rebalance": (0, 0, 0), "add_b": (0, 1, 0), "failing": (0, 0, 0), "aave_s": (0, 1, 0), "aave_sb": (0, 1, 0),
+              "indicator": (0, 0, 1), "follower": (0, 0, 0), "vandal": (1, 0, 0)}
 MARKET_SETS = [["uni_a"], ["uni_a", "uni_b"], ["uni_a", "aave"]]
 
 
@@ -98,6 +109,7 @@ def dump_state(strategy):
         else:   # Aave: scaled supplies / borrows as held, and what the views report
             out["positions"][mi.name] = sorted([["supply", str(k), str(v)] for k, v in m.supplies.items()])
             out["positions"][mi.name + ".borrows"] = sorted([["borrow", str(k), str(v)] for k, v in m.borrows.items()])
+    out["data_columns"] = {mi.name: [str(c) for c in m.data.columns] for mi, m in strategy.broker.markets.items()}
     out["assets"] = sorted([k.name, str(v.balance)] for k, v in strategy.broker.assets.items())
     out["actions"] = [[type(a).__name__, str(getattr(a, "market", "")), str(getattr(a, "timestamp", ""))] for a in strategy.actions]
     out["notes"] = list(strategy.notes)
@@ -136,9 +148,24 @@ def make_strategy_class():
 
         def on_bar(self, snapshot):
             b, r = self.behaviour, snapshot.row_id
+
+            def add(k, width, frac):
+                m = self._m(k)
+                t = int(snapshot.market_status[m.market_info].closeTick)
+                base = self.broker.get_token_balance(m.base_token) * Decimal(frac)
+                quote = self.broker.get_token_balance(m.quote_token) * Decimal(frac)
+                m.add_liquidity_by_tick(t - width, t + width, base, quote)
             if b == "indicator" and r in (2, 5):
                 sig = snapshot.market_status[self._m(0).market_info].sig
                 self._try(f"sig{sig}", lambda: self._m(0).buy(Decimal("0.2")) if sig == 2 else self._m(0).sell(Decimal("0.1")))
+            elif b == "vandal" and r == 1:
+                # overwrites values of the data frame it was handed, in place (not an API a strategy is meant to use)
+                def smash():
+                    m = self._m(0)
+                    m.data.loc[m.data.index[3]:, "closeTick"] = m.data.loc[m.data.index[3]:, "closeTick"] + 700
+                self._try("smash", smash)
+            elif b == "vandal" and r == 6:
+                self._try("add", lambda: add(0, 600, "0.5"))
             elif b == "follower" and r == 4:
                 # acts on an indicator column only if somebody put one there
                 row = snapshot.market_status[self._m(0).market_info]
@@ -147,12 +174,6 @@ def make_strategy_class():
                 else:
                     self.notes.append("no-sig")
 
-            def add(k, width, frac):
-                m = self._m(k)
-                t = int(snapshot.market_status[m.market_info].closeTick)
-                base = self.broker.get_token_balance(m.base_token) * Decimal(frac)
-                quote = self.broker.get_token_balance(m.quote_token) * Decimal(frac)
-                m.add_liquidity_by_tick(t - width, t + width, base, quote)
             if b == "add1" and r == 1:
                 self._try("add", lambda: add(0, 600, "0.5"))
             elif b == "add2" and r in (1, 4):
@@ -227,6 +248,11 @@ def worker(spec_path):
     before = {mi.name: frame_hash(df) for mi, df in frames.items()}
     before["price"] = frame_hash(price[0])
     strategies = [Scripted(s["sid"], s["behaviour"], spec["out"], spec["markets"], {"usdc": usdc, "weth": weth}) for s in spec["strategies"]]
+    if spec.get("windows"):
+        # exercise the branch that passes `data` as a task argument (no hook in /repo: the module's `platform` name is patched here)
+        import types
+        import demeter.core.backtest as bt
+        bt.platform = types.SimpleNamespace(system=lambda: "Windows")
     mgr = BacktestManager(config=config, data=data, strategies=strategies, backtest_config=BacktestConfig(), threads=spec["threads"])
     mgr.run()
     after = {mi.name: frame_hash(df) for mi, df in frames.items()}
@@ -306,7 +332,7 @@ def run_manager(spec, timeout=300):
 def diff_dump(a, b):
     if a is None or b is None:
         return "no result file (the run did not reach finalize())"
-    for k in ("notes", "positions", "assets", "actions", "columns"):
+    for k in ("notes", "positions", "assets", "actions", "columns", "data_columns"):
         if a[k] != b[k]:
             return f"{k}: {json.dumps(a[k])[:200]} vs alone {json.dumps(b[k])[:200]}"
     if len(a["account"]) != len(b["account"]):
@@ -349,20 +375,23 @@ def run_case(case):
     strategies = [{"sid": f"s{i}", "behaviour": b} for i, b in enumerate(case["behaviours"])]
     ordered = [strategies[i] for i in case["order"]]
     spec = {k: case[k] for k in ("markets", "bars", "data_seed", "usdc", "eth")}
-    return run_manager(dict(spec, threads=case["threads"], strategies=ordered))
+    return run_manager(dict(spec, threads=case["threads"], strategies=ordered, windows=bool(case.get("windows"))))
 
 
 def judge_case(ctx, case, outcome, solo_cache, model_reqs):
     strategies = [{"sid": f"s{i}", "behaviour": b} for i, b in enumerate(case["behaviours"])]
     ordered = [strategies[i] for i in case["order"]]
     res, mgr, rc, err = outcome
-    path = "sequential" if len(ordered) == 1 or case["threads"] == 1 else "pooled"
+    path = "sequential" if len(ordered) == 1 or case["threads"] == 1 else ("pooled-args" if case.get("windows") else "pooled")
     ok = True
     if rc != 0 or mgr is None:
         ctx.violate(f"manager.{path}.crash", f"BacktestManager.run() failed (exit {rc}) with threads={case['threads']}, strategies {case['behaviours']}: {err[-300:]}", case)
         ok = False
     elif not mgr["data_intact"]:
-        ctx.violate(f"manager.{path}.data-modified", "a run modified the shared BacktestData frames", case)
+        ctx.violate(f"manager.{path}.data-modified", f"a run modified the manager's BacktestData frames (strategies {case['behaviours']})", case)
+        ok = False
+    elif any(mgr["config_positions_after"].values()):
+        ctx.violate(f"manager.{path}.config-modified", f"the configured market objects hold positions after run(): {mgr['config_positions_after']}", case)
         ok = False
     for s in strategies:
         d = diff_dump(res.get(s["sid"]), solo_cache[solo_key(case, s["behaviour"])])
@@ -377,8 +406,9 @@ def judge_case(ctx, case, outcome, solo_cache, model_reqs):
     # the manager model on the position-count projection
     if all(res.get(s["sid"]) is not None for s in strategies):
         second = case["markets"][1] if len(case["markets"]) > 1 else "uni_b"
-        observed = [[len(res[s["sid"]]["positions"].get(m, [])) for m in ("uni_a", second)] for s in ordered]
-        model_reqs.append(({"fn": "manager", "threads": case["threads"], "attach": "current",
+        observed = [[len(res[s["sid"]]["positions"].get(m, [])) for m in ("uni_a", second)] + [res[s["sid"]]["data_columns"]["uni_a"].count("sig")]
+                    for s in ordered]
+        model_reqs.append(({"fn": "manager", "threads": case["threads"], "attach": "current", "cow": COW, "windows": bool(case.get("windows")),
                             "effects": [list(POS_EFFECT[s["behaviour"]]) for s in ordered]}, observed, case))
 
 
@@ -393,16 +423,21 @@ def gen_cases(ctx):
     # a strategy that adds an indicator column, followed by one that would act on such a column: the data frames are shared too
     for threads in (1, 2):
         cases.append(dict(base_spec(rng, MARKET_SETS[0], 12), threads=threads, behaviours=["indicator", "follower", "follower"], order=[0, 1, 2], order_kind="id"))
+    # a strategy that overwrites values of its data frame in place, followed by strategies whose result depends on those values
+    for threads in (1, 2):
+        cases.append(dict(base_spec(rng, MARKET_SETS[0], 12), threads=threads, behaviours=["vandal", "add1", "indicator", "add2"], order=[0, 1, 2, 3], order_kind="id"))
+    # the branch taken on Windows: `data` travels as a task argument
+    cases.append(dict(base_spec(rng, MARKET_SETS[1], 12), threads=2, windows=True, behaviours=["add1", "indicator", "follower", "add_b"], order=[0, 1, 2, 3], order_kind="id"))
     # all orders of one three-strategy set, sequential and pooled
     base = base_spec(rng, MARKET_SETS[2], 12)
     for threads in (1, 2):
         for p in itertools.permutations(range(3)):
             cases.append(dict(base, threads=threads, behaviours=["add1", "aave_sb", "idle"], order=list(p), order_kind="perm"))
-    for _ in range(ctx.scale(10, 120)):
+    bases = [base_spec(rng, MARKET_SETS[k % 3], [12, 20, 40][(k // 3) % 3]) for k in range(ctx.scale(5, 18))]
+    for _ in range(ctx.scale(12, 100)):
         n = rng.choice([1, 2, 2, 3, 3, 4])
-        markets = rng.choice(MARKET_SETS)
-        beh = fit([rng.choice(BEHAVIOURS) for _ in range(n)], markets)
-        base = base_spec(rng, markets, rng.choice([12, 20, 40]))
+        base = rng.choice(bases)            # a small pool of configurations: solo runs are shared between cases
+        beh = fit([rng.choice(BEHAVIOURS) for _ in range(n)], base["markets"])
         orders = [("id", list(range(n)))]
         if n > 1:
             orders.append(("rev", list(range(n - 1, -1, -1))))
@@ -410,7 +445,7 @@ def gen_cases(ctx):
             orders += [("perm", list(p)) for p in itertools.permutations(range(n))][:24]
         for threads in ((1, 2, 4) if ctx.thorough else (1, rng.choice([2, 4]))):
             for kind, order in (orders if ctx.thorough else orders[:1] + orders[1:2] * (threads == 1)):
-                cases.append(dict(base, threads=threads, behaviours=beh, order=order, order_kind=kind))
+                cases.append(dict(base, threads=threads, behaviours=beh, order=order, order_kind=kind, windows=threads > 1 and rng.random() < 0.2))
     return cases
 
 
@@ -423,7 +458,7 @@ def run(ctx):
         for b in c["behaviours"]:
             keys.setdefault(solo_key(c, b), (c, b))
     # every solo run and every manager run is its own OS process: overlap them, then judge in a fixed order
-    with ThreadPoolExecutor(max_workers=min(8, os.cpu_count() or 2)) as ex:
+    with ThreadPoolExecutor(max_workers=min(12, os.cpu_count() or 2)) as ex:
         solos = list(ex.map(lambda kv: run_solo(*kv), keys.values()))
         outcomes = list(ex.map(run_case, cases))
         edges = list(ex.map(run_edge, EDGE))
@@ -442,7 +477,7 @@ def run(ctx):
         elif ctx.driver_ok:
             runs = []
             for k, _ in enumerate(e["outcome"]):
-                req = {"fn": "manager", "threads": e["threads"], "attach": "current", "effects": [[0, 0]] * e["n"], "cpu": e["cpu"],
+                req = {"fn": "manager", "threads": e["threads"], "attach": "current", "effects": [[0, 0, 0]] * e["n"], "cpu": e["cpu"],
                        "ctxSet": k > 0, "cfgNone": sc == "no-config", "dataNone": sc == "no-data"}
                 runs.append(driver_json([req], exe="driver_metrics")[0]["outcome"])
             if runs != e["outcome"]:
